@@ -1,5 +1,5 @@
 // extract regenerates lean/Tmv/Gen/Facts.lean from /repo's current sources (go/ast only).
-// Requests are listed in facts.json:
+// Requests are listed in facts/*.json (one file per property):
 //   {"name":..., "kind":"const", "file":..., "ident":...}             integer constant (evaluated)
 //   {"name":..., "kind":"cond",  "file":..., "func":..., "match":...} text of the first `if`
 //        condition (or for-loop condition) inside func whose printed form contains `match`
@@ -160,7 +160,7 @@ func leanStr(s string) string {
 func main() {
 	repo := "/repo"
 	out := "/verif/lean/Tmv/Gen/Facts.lean"
-	reqFile := "/verif/extract/facts.json"
+	reqFile := "/verif/extract/facts"
 	if len(os.Args) > 1 {
 		repo = os.Args[1]
 	}
@@ -170,15 +170,22 @@ func main() {
 	if len(os.Args) > 3 {
 		reqFile = os.Args[3]
 	}
-	b, err := os.ReadFile(reqFile)
-	if err != nil {
-		fmt.Fprintln(os.Stderr, err)
-		os.Exit(2)
-	}
+	// reqFile is a directory of *.json request lists (one per property)
+	files, _ := filepath.Glob(filepath.Join(reqFile, "*.json"))
+	sort.Strings(files)
 	var reqs []Req
-	if err := json.Unmarshal(b, &reqs); err != nil {
-		fmt.Fprintln(os.Stderr, "facts.json:", err)
-		os.Exit(2)
+	for _, fn := range files {
+		b, err := os.ReadFile(fn)
+		if err != nil {
+			fmt.Fprintln(os.Stderr, err)
+			os.Exit(2)
+		}
+		var rs []Req
+		if err := json.Unmarshal(b, &rs); err != nil {
+			fmt.Fprintln(os.Stderr, fn+":", err)
+			os.Exit(2)
+		}
+		reqs = append(reqs, rs...)
 	}
 	sort.SliceStable(reqs, func(i, j int) bool { return reqs[i].Name < reqs[j].Name })
 	var w bytes.Buffer
